@@ -63,6 +63,8 @@ def t_of(entry_tuple):
 def strip_none(v):
     if isinstance(v, sv.SNone):
         return sv.STime(z3.Int("none!dummy"))  # never used: callers guard with Not(is_none(v))
+    if isinstance(v, sv.SUnion) and all(isinstance(x, sv.SNone) for _g, x in v.alts):
+        return sv.STime(z3.Int("none!dummy"))
     if isinstance(v, sv.SUnion):
         alts = [(g, x) for g, x in v.alts if not isinstance(x, sv.SNone)]
         r = alts[-1][1]
